@@ -60,6 +60,36 @@ static void run_item(Ctx& ctx, const Item& it) {
           }
 }
 
+// bulk layer: outputs of 16 MiB and more (N x limbs x 8 bytes) with strides N and N+1 - a path chosen by the total amount of data
+// (non-temporal stores, blocking, prefetch distances) must still honour "no alignment beyond 8 bytes" and the size / stride semantics
+static void run_bulk(Ctx& ctx, int opi, int mtype, int shape) {
+  const VecOp& op = VECOPS[opi];
+  static const uint64_t SH[3][2] = {{65536, 33}, {16384, 160}, {1024, 2049}};
+  const uint64_t N = SH[shape][0], L = SH[shape][1];
+  MODULE* mod = get_module(N, mtype == 0 ? FFT64 : NTT120, CFG_NATIVE);
+  const char* mt = mtype == 0 ? "fft64" : "ntt120";
+  ExecResult r;
+  for (uint64_t sl : {N + 1, N, N + 4})
+    for (int al = 0; al < 2; ++al) {
+      VecShape s; s.N = N; s.rs = L; s.as = L - 1; s.bs = L + 1; s.rsl = s.asl = s.bsl = sl; s.p = op.model == 'r' ? 5 : 3; s.res_extra = 0;
+      s.alias = al ? AL_RES_A : AL_NONE;
+      if (al && op.nin < 1) continue;
+      VecShape sc = canon_shape(op, s);
+      if (al && !alias_ok(op, sc)) continue;
+      ApiCase c = gen_vecop(mod, op, sc, mt, "native");
+      c.id += "|bulk";
+      if (!ctx.want(c.id)) continue;
+      ctx.begin_case(c.id);
+      for (int off : {0, 8}) {
+        ExecOpts o; o.prefill = 1; for (int i = 0; i < 12; ++i) o.off[i] = off * (i == 0 ? 1 : (i & 1));
+        execute(c, o, r);
+        std::string err = judge_model(c, r);
+        if (!err.empty()) { ctx.violation(c.id, err + sfmt(" (output at %d modulo 64)", off)); break; }
+      }
+      ctx.end_case(true);
+    }
+}
+
 // element-level kernels on the full square of the value alphabet, nn = 1, 2, 4 (and 8 for the avx forms)
 typedef void (*bin_f)(uint64_t, int64_t*, const int64_t*, const int64_t*);
 typedef void (*un_f)(uint64_t, int64_t*, const int64_t*);
@@ -156,6 +186,11 @@ int main(int argc, char** argv) {
   std::stable_sort(items.begin(), items.end(), [](const Item& a, const Item& b) { return a.N > b.N; });
   ctx.parallel(items.size(), [&](uint64_t i) { run_item(ctx, items[i]); }, "vec ops");
   ctx.parallel(1, [&](uint64_t) { run_kernels(ctx); }, "kernels");
+  struct BItem { int op, mt, shape; };
+  std::vector<BItem> bitems;
+  for (int shape = 0; shape < (args.thorough() ? 3 : 2); ++shape)
+    for (int op = 0; op < NVECOPS; ++op) for (int mt = 0; mt < 2; ++mt) if (!(mt == 1 && VECOPS[op].fft64_only)) bitems.push_back({op, mt, shape});
+  ctx.parallel(bitems.size(), [&](uint64_t i) { run_bulk(ctx, bitems[i].op, bitems[i].mt, bitems[i].shape); }, "bulk outputs (16 MiB and more)");
   // huge strides: limb offsets beyond 2^31 / 2^32 elements or bytes (sparse PROT_NONE reservations, only the limbs are accessible)
   struct HItem { uint64_t N; int op; int mt; CpuCfg cfg; };
   std::vector<HItem> hitems;
@@ -176,7 +211,7 @@ int main(int argc, char** argv) {
   extra.set("ring_dimensions", ns).set("ops", NVECOPS).set("cfgs", (int)cf.size());
   return ctx.finish("exploration",
                     "nested product op x N x module type x cfg x (res_size,a_size,b_size) in {0,1,2,3,5,9}^3 x strides {N,N+1,N+3,2N+5} per small operand x p set; "
-                    "plus a wide layer (limb counts {0,1,33,65,129,257}^3 at N = 4, 16) and a huge-stride layer (2^28+N+1, 2^29+N, 2^31+N+3, 2^32+N+1 on every non-empty subset of the small operands, 2-3 limbs, N = 8 and 1024); "
+                    "plus a bulk layer (outputs >= 16 MiB: 33 limbs at N = 65536, 160 at N = 16384, 2049 at N = 1024; strides N, N+1, N+4; output at 0 and 8 modulo 64; in place and out of place), a wide layer (limb counts {0,1,33,65,129,257}^3 at N = 4, 16) and a huge-stride layer (2^28+N+1, 2^29+N, 2^31+N+3, 2^32+N+1 on every non-empty subset of the small operands, 2-3 limbs, N = 8 and 1024); "
                     "a case is non-trivial when res_size > 0 (something must be written); distinct = distinct case ids",
                     true, extra);
 }
